@@ -152,7 +152,7 @@ fn exec_mutants(t: &mut Tape, st: &mut Stats) -> Result<(), String> {
     let mut kinds = vec![];
     for _ in 0..nm {
         let len = server.len();
-        let kind = t.weighted(&[3, 3, 2, 2, 4, 2, 1, 1, 1]);
+        let kind = t.weighted(&[3, 3, 2, 2, 4, 2, 1, 1, 1, 2]);
         kinds.push(kind);
         match kind {
             0 => {
@@ -226,6 +226,21 @@ fn exec_mutants(t: &mut Tape, st: &mut Stats) -> Result<(), String> {
                         extra.extend_from_slice(b"\r\n");
                     }
                     server.splice(p + 2..p + 2, extra);
+                }
+            }
+            9 => {
+                // one field line repeated 2..12 times (counts near internal capacities)
+                let starts: Vec<usize> = server.windows(2).enumerate().filter(|(_, w)| *w == b"\r\n").map(|(i, _)| i + 2).collect();
+                if starts.len() >= 2 {
+                    let i = t.below(starts.len() - 1);
+                    let (a, b) = (starts[i], starts[i + 1]);
+                    let line: Vec<u8> = if t.chance(50) { b"Connection: close\r\n".to_vec() } else { server[a..b].to_vec() };
+                    let k = t.range(2, 12);
+                    let mut rep = vec![];
+                    for _ in 0..k {
+                        rep.extend_from_slice(&line);
+                    }
+                    server.splice(a..a, rep);
                 }
             }
             _ => {
@@ -382,7 +397,7 @@ last-chunk line (on a redirect with an unresolvable Location), after 14 hex digi
 byte with 1..2-byte output buffers. random 'mutants': a valid exchange from C01's generator with 1..4 grammar-aware mutations (bit flip, \
 deletion, duplication, splice from a second exchange, token insertion at line starts - CRLF, lone CR / LF, 18 hex digits, Connection: \
 close, interim 100, bad Content-Length, unresolvable Location, NUL -, truncation, 100..140 extra fields, 64 KiB field names / values, \
-oversize numbers), the request configuration of that exchange, a random arrival / buffer schedule. enumeration 'five': all five \
+oversize numbers, one field line repeated 2..12 times), the request configuration of that exchange, a random arrival / buffer schedule. enumeration 'five': all five \
 close conditions at once in six refusal shapes. thorough: libFuzzer (8 workers, dictionary, seed corpus, -max_len=8192) on the same \
 driver and oracle. Oracle: every server-facing call returns (no panic; overflow checks on) with Err or consumed <= offered and \
 produced <= space; produced bytes of a read are an in-order subsequence of the bytes it consumed; afterwards can_proceed / proceed / \
